@@ -598,7 +598,19 @@ func RunChurnKV(cfg ChurnCfg, scratch string) *ChurnResult {
 	res.EventSig = sb.String()
 	res.Ops = c.ops
 	res.MemberLog = c.log
-	res.StoreEventsFor = lab.StoreEventsFor
+	// the store-level record is cut here: the teardown that follows (every node leaves, exporting
+	// and removing its keys) is not part of the judged history and must not enter the classifiers
+	cut := mono() / 1000
+	res.StoreEventsFor = func(key string) []StoreEvent {
+		all := lab.StoreEventsFor(key)
+		out := all[:0:0]
+		for _, e := range all {
+			if e.T <= cut {
+				out = append(out, e)
+			}
+		}
+		return out
+	}
 	for _, e := range lab.Events() {
 		res.HookLog = append(res.HookLog, fmt.Sprintf("[%d] %s @%d", e.T, e.Point, e.Node))
 	}
